@@ -191,13 +191,19 @@ class Ctx(object):
     # -- evidence ----------------------------------------------------------------------
     def write_evidence(self):
         st = self.stats
+        import re
+        sampled = [x for x in self.scopes
+                   if re.search(r'every \d|every other|strided|stride|sample|Hypothesis|machines|random|corpus', x)]
+        complete = [x for x in self.scopes if x not in sampled]
         cov = {
             'evaluations': int(st.evaluations),
             'distinct_nontrivial': int(st.distinct_nontrivial),
             'rule': self.rule,
             'samples': st.samples[:24],
-            'exhaustive': bool(self.exhaustive),
-            'scopes': self.scopes,
+            # true only if at least one named finite scope was enumerated completely
+            'exhaustive': bool(self.exhaustive and complete),
+            'scopes_enumerated_completely': complete,
+            'scopes_sampled': sampled,
             'classes': dict(sorted(st.classes.items())),
             'empty_classes': sorted(k for k, v in st.classes.items() if v == 0),
             'excluded_known': dict(sorted(st.excluded_known.items())),
